@@ -78,6 +78,9 @@ theorem descend_mono {w1 w2 r1 r2 : E → Prec → Option E} (hw : Le w1 w2) (hr
       · rename_i hg; rw [if_pos hg] at h; exact h
       · rename_i hg
         rw [if_neg hg] at h
+        by_cases hlt : ((op == .lt || op == .shl) && startsNotLit y) = true
+        · rw [if_pos hlt] at h; cases h
+        rw [if_neg hlt] at h ⊢
         cases hh : hoistList op x p with
         | none =>
           simp only [hh] at h ⊢
